@@ -328,10 +328,13 @@ def run_check(tier, seed, n_universes, n_hist):
     stats = {}
     digests, nontrivial = set(), set()
     samples = []
+    import hashlib
+    rd = hashlib.sha256()
     for status, r in results:
         if status != 'ok':
             rep.harness_errors.append(r)
             continue
+        rd.update(json.dumps([r['u'], r['digests'], sorted(r['stats'].items()), r['violation'] and r['violation']['class']]).encode())
         total_h += r['histories']
         total_ops += r['ops']
         digests.update(r['digests'])
@@ -352,6 +355,7 @@ def run_check(tier, seed, n_universes, n_hist):
         'samples': samples, 'universes': n_universes, 'operations': total_ops, 'fault_kinds_fired': faults, 'probes': probes,
         'simulated_time': 'not applicable (no clock); logical operations only', 'distinct_interleavings': len(digests),
         'interleaving_measure': 'distinct operation sequences over the instance pool',
+        'run_digest': rd.hexdigest(),
         'seeds': f'VERIF_SEED={seed}; universes SHA256(seed/C16/universe/<u>), u<{n_universes}',
     }
     return rep.finish()
